@@ -21,7 +21,8 @@ func vhEntries(w *cert.VWorld, m int, nmsgs int) []cert.VEntry {
 // C03: one proposal delivered to the real proposal handler of a replica in an arbitrary vote
 // state. B1 (view v1) is stored and certified by qc1 (honest quorum); the proposal's block has a
 // symbolic view, its parent is genesis / B1 / unknown, its QC names genesis / B1 with an
-// honest or a deficient signature and a symbolic view label; sender and leader are symbolic.
+// honest or a deficient signature and a symbolic view label (qcSel 4: an unsigned QC naming genesis
+// with a symbolic label); sender and leader are symbolic.
 func VH_C03_proposal(n int, rule int, parentSel int, qcSel int) {
 	leader := hotstuff.ID(nondetU32("leader"))
 	vassume(leader >= 2 && int(leader) <= n+1)
@@ -63,11 +64,15 @@ func VH_C03_proposal(n int, rule int, parentSel int, qcSel int) {
 		qc, certified = w.HonestQC(B1, q, false), B1
 	case 2: // QC for B1 with one bad signature
 		qc, certified, qcValid = w.HonestQC(B1, q, true), B1, false
-	default: // QC for B1 whose view label is symbolic
+	case 3: // QC for B1 whose view label is symbolic
 		h := w.HonestQC(B1, q, false)
 		label := hotstuff.View(nondetU64("qc-label"))
 		qc, certified = hotstuff.NewQuorumCert(h.Signature(), label, B1.Hash()), B1
 		qcValid = label == v1
+	default: // an unsigned QC naming genesis with a symbolic view label (only view 0 is the genesis QC)
+		label := hotstuff.View(nondetU64("qc-label"))
+		qc, certified = hotstuff.NewQuorumCert(nil, label, gen.Hash()), gen
+		qcValid = label == 0
 	}
 	blk := hotstuff.VMakeBlock(hotstuff.VHash(1), parent, qc, &clientpb.Batch{}, vb, hotstuff.ID(nondetU32("proposer")))
 	sender := hotstuff.ID(nondetU32("sender"))
